@@ -95,6 +95,7 @@ func faultOpts(prop string, thorough bool) (GenOpts, faultEmphasis) {
 			stopHandlerErr, stopMapperErr, stopMapperMiscount, stopUnsupportedEvent, stopInvalidEvent}
 	case "C07":
 		em.Bystander = true
+		em.EnvPanic = true
 		em.ConnPhase = 10
 		em.MaxFaults = 3
 		o.BigOffsets = true
